@@ -1130,6 +1130,72 @@ def _mhz():
 
 
 # ---------------------------------------------------------------------------------------------
+# equal time values in every unit x numeric form (equal => equal hash needs the SAME total written differently)
+
+
+def duration_pool(seed, thorough):
+    """-> (cirq values, raw datetime.timedelta values).  Totals (in picoseconds) x unit x numeric form."""
+    out = []
+    tds = []
+    units = [("picos", 1), ("nanos", 1000), ("micros", 1000_000), ("millis", 1000_000_000)]
+    forms = [("int", int), ("float", float), ("np.int64", np.int64), ("np.int32", np.int32), ("np.float64", np.float64),
+             ("np.float32", np.float32)]
+    # whole microseconds (the timedelta hash branch), non-whole microseconds, sub-nanosecond, zero, negative
+    totals = [0, 1_000_000, 2_000_000, 1_000_000_000, 500_000_000, 3_000_000_000, -1_000_000, 1_500_000, 2500, 1000, 1, 7]
+    if thorough:
+        totals += [60_000_000_000_000, 999_000_000, 1_000_001, 250_000, -2_000_000_000]
+    q = cirq.LineQubit(0)
+    for total in totals:
+        for unit, mult in units:
+            for fname, conv in forms:
+                if fname.startswith("np.int") or fname == "int":
+                    if total % mult or (fname == "np.int32" and abs(total // mult) >= 2**31):
+                        continue
+                    v = conv(total // mult)
+                else:
+                    v = conv(total / mult)
+                    if float(v) * mult != total:
+                        continue  # this numeric form cannot represent the total exactly in this unit
+                d = cirq.Duration(**{unit: v})
+                out.append((f"Duration({unit}={fname}({v!r})) total {total} ps", d))
+        if total % 1_000_000 == 0:
+            tds.append((f"timedelta(microseconds={total // 1_000_000})", datetime.timedelta(microseconds=total // 1_000_000)))
+            out.append((f"Duration(timedelta {total} ps)", cirq.Duration(datetime.timedelta(microseconds=total // 1_000_000))))
+        # arithmetic / mixed-unit ways to reach the same total
+        out.append((f"Duration(picos={total}) * 1.0", cirq.Duration(picos=total) * 1.0))
+        out.append((f"Duration(picos={3 * total}) / 3", cirq.Duration(picos=3 * total) / 3))
+        out.append((f"Duration(picos={total}) + Duration()", cirq.Duration(picos=total) + cirq.Duration()))
+        if total % 2 == 0:
+            out.append((f"Duration(picos={total // 2}, nanos={total / 2000!r})", cirq.Duration(picos=total // 2, nanos=total / 2000)))
+        out.append((f"resolved Duration(nanos=a) a={total / 1000!r}",
+                    cirq.resolve_parameters(cirq.Duration(nanos=A), {"a": total / 1000})))
+        if total % 1000 == 0:
+            out.append((f"resolved Duration(nanos=a) a={total // 1000!r}",
+                        cirq.resolve_parameters(cirq.Duration(nanos=A), {"a": total // 1000})))
+        # timestamps (not JSON-serializable: repr / pickle / copy / hash only)
+        for fname, conv in forms[:2] + forms[4:5]:
+            out.append((f"Timestamp(picos={fname}) {total}", cirq.Timestamp(picos=conv(total))))
+            if total % 1000 == 0 or fname != "int":
+                v = conv(total // 1000) if fname == "int" else conv(total / 1000)
+                out.append((f"Timestamp(nanos={fname}) {total}", cirq.Timestamp(nanos=v)))
+    # values whose hash is built from a duration
+    for total in (1_000_000, 2500, 0):
+        variants = [cirq.Duration(picos=total), cirq.Duration(picos=float(total)), cirq.Duration(nanos=total / 1000)]
+        if total % 1_000_000 == 0:
+            variants.append(cirq.Duration(micros=total // 1_000_000))
+            variants.append(cirq.Duration(micros=float(total // 1_000_000)))
+        for vi, d in enumerate(variants):
+            gate = cirq.WaitGate(d)
+            out.append((f"WaitGate(variant {vi} of {total} ps)", gate))
+            out.append((f"WaitGate.on (variant {vi} of {total} ps)", gate.on(q)))
+            out.append((f"Moment(wait) (variant {vi} of {total} ps)", cirq.Moment(gate.on(q))))
+            out.append((f"FrozenCircuit(wait) (variant {vi} of {total} ps)", cirq.FrozenCircuit(gate.on(q))))
+    out.append(("cirq.wait(q, nanos=1000.0)", cirq.wait(q, nanos=1000.0)))
+    out.append(("cirq.wait(q, micros=1)", cirq.wait(q, micros=1)))
+    return out, tds
+
+
+# ---------------------------------------------------------------------------------------------
 
 
 def build(tier, seed):
@@ -1148,4 +1214,5 @@ def build(tier, seed):
     groups["gatesets"] = gateset_pool(seed, thorough)
     groups["noise_devices"] = noise_device_pool(seed, thorough)
     groups["google_workflow"] = google_workflow_pool(seed, thorough)
+    groups["durations"], groups["_timedeltas"] = duration_pool(seed, thorough)
     return groups
